@@ -51,6 +51,7 @@ type caseIn struct {
 	OverlapN    int    `json:"overlap_n,omitempty"`
 	PendingReply bool  `json:"pending_reply,omitempty"` // SendCallAndWaitReplayCall already ACKED and waiting for its reply, ReceiveCall and ReceiveReplyCall consumers waiting - all with contexts WITHOUT deadline
 	Queued      int    `json:"queued,omitempty"`        // every downstream holds that many unread metadata items and unread chunks at (stream / connection) Close; afterwards ReadMetadata / ReadDataPoints are called 16 times each
+	E2EPending  int    `json:"e2e_pending,omitempty"`   // with outage dialfail/dialok: that many concurrent SendCall / SendReplyCall / SendCallAndWaitReplayCall callers are waiting for Connected inside send() when Close is called
 	CallFlood   int    `json:"call_flood,omitempty"` // that many DownstreamCall and UpstreamCallAck messages arrive while Close waits behind a pending SendBaseTime (no answer, 300 ms context)
 	Buffered    []int  `json:"buffered,omitempty"`    // ordinals of streams with unflushed data / unacknowledged reads at Close
 	PendingRead bool   `json:"pending_read,omitempty"`
@@ -478,6 +479,33 @@ func runCase(c *caseIn) (res resultOut) {
 			return
 		}
 		time.Sleep(30 * time.Millisecond) // the watchers see Reconnecting
+		for k := 0; k < c.E2EPending; k++ {
+			api := 3 + k%3
+			p := pend{api, -1, make(chan int, 1)}
+			go func() {
+				defer func() {
+					if x := recover(); x != nil {
+						p.ch <- 8
+					}
+				}()
+				ctx, cancel := context.WithTimeout(context.Background(), 3*time.Second)
+				defer cancel()
+				var err error
+				switch api {
+				case 3:
+					_, err = conn.SendCall(ctx, &iscp.UpstreamCall{DestinationNodeID: "d", Name: "out", Type: "t"})
+				case 4:
+					_, err = conn.SendReplyCall(ctx, &iscp.UpstreamReplyCall{RequestCallID: "r", DestinationNodeID: "d", Name: "out", Type: "t"})
+				case 5:
+					_, err = conn.SendCallAndWaitReplayCall(ctx, &iscp.UpstreamCall{DestinationNodeID: "d", Name: "out", Type: "t"})
+				}
+				p.ch <- classify(err)
+			}()
+			pends = append(pends, p)
+		}
+		if c.E2EPending > 0 {
+			time.Sleep(15 * time.Millisecond) // every caller waits for Connected inside send()
+		}
 		ev("ELinkDown", "EDetect", "ELoop")
 		for i, s := range streams {
 			if !closedFirst(i) {
@@ -712,6 +740,52 @@ func runCase(c *caseIn) (res resultOut) {
 			return err
 		})
 		res.ConnMatrix = append(res.ConnMatrix, [2]int{a, cl})
+	}
+	// every e2e entry again, from 6 goroutines x 20 repetitions: a misclassification that depends on which
+	// goroutine wins a race (the context watcher against the closed-status hook) shows reliably
+	{
+		var mm sync.Mutex
+		seen := map[[2]int]bool{}
+		var wgm sync.WaitGroup
+		for _, a := range []int{3, 4, 5, 6, 7} {
+			for w := 0; w < 6; w++ {
+				a := a
+				wgm.Add(1)
+				go func() {
+					defer wgm.Done()
+					for k := 0; k < 20; k++ {
+						cl := guarded(2*time.Second, func() error {
+							ctx, cancel := short()
+							defer cancel()
+							var err error
+							switch a {
+							case 3:
+								_, err = conn.SendCall(ctx, &iscp.UpstreamCall{DestinationNodeID: "d", Name: "late", Type: "t"})
+							case 4:
+								_, err = conn.SendReplyCall(ctx, &iscp.UpstreamReplyCall{RequestCallID: "r", DestinationNodeID: "d", Name: "late", Type: "t"})
+							case 5:
+								_, err = conn.SendCallAndWaitReplayCall(ctx, &iscp.UpstreamCall{DestinationNodeID: "d", Name: "late", Type: "t"})
+							case 6:
+								_, err = conn.ReceiveCall(ctx)
+							case 7:
+								_, err = conn.ReceiveReplyCall(ctx)
+							}
+							return err
+						})
+						mm.Lock()
+						seen[[2]int{a, cl}] = true
+						mm.Unlock()
+					}
+				}()
+			}
+		}
+		wgm.Wait()
+		var ks [][2]int
+		for k := range seen {
+			ks = append(ks, k)
+		}
+		sort.Slice(ks, func(i, j int) bool { return ks[i][0]*10+ks[i][1] < ks[j][0]*10+ks[j][1] })
+		res.ConnMatrix = append(res.ConnMatrix, ks...) // one entry per distinct (entry, class) seen
 	}
 	for _, s := range streams {
 		s := s
@@ -1083,6 +1157,9 @@ func genRandom(r *rng.R) *caseIn {
 	if c.Outage != "" {
 		c.Buffered = nil
 		c.SlowWriteUs = 0
+		if (c.Outage == "dialfail" || c.Outage == "dialok") && r.Chance(1, 2) {
+			c.E2EPending = 20 + r.Intn(31)
+		}
 	} else if r.Chance(1, 6) {
 		c.CallFlood = 9 + r.Intn(12)
 	}
@@ -1155,11 +1232,13 @@ func main() {
 				add(&caseIn{Ups: sh[0], Downs: sh[1], Closes: 1, Outage: "settled"}, "after-outage")
 			}
 			add(&caseIn{Ups: sh[0], Downs: sh[1], Closes: 1, Outage: "dialfail"}, "close-while-dial-fails")
+			add(&caseIn{Ups: sh[0], Downs: sh[1], Closes: 1 + sh[1]%2, Outage: "dialfail", E2EPending: 20 + 6*(sh[0]+sh[1])}, "e2e-pending-during-outage")
 			add(&caseIn{Ups: sh[0], Downs: sh[1], Closes: 1 + (sh[0]+sh[1])%2, Concurrent: sh[1] > 1, Outage: "dialok"}, "close-while-dialling")
 			add(&caseIn{Ups: sh[0], Downs: sh[1], Closes: 1, Outage: "guard"}, "close-before-reconnect-guard")
 			add(&caseIn{Ups: sh[0], Downs: sh[1], Closes: 1, PendingCall: true}, "pending")
 			add(&caseIn{Ups: sh[0], Downs: sh[1], Closes: 1 + sh[0]%2, Concurrent: sh[1] > 1, PendingReply: true}, "pending-reply-no-deadline")
 		}
+		add(&caseIn{Closes: 1, Outage: "dialok", E2EPending: 50}, "e2e-pending-during-outage")
 		add(&caseIn{Closes: 1, CallFlood: 9}, "call-flood-during-close")
 		add(&caseIn{Closes: 2, CallFlood: 20}, "call-flood-during-close")
 		add(&caseIn{Closes: 1, FullMatrix: true}, "full-matrix")
